@@ -2,6 +2,7 @@
 # with_patch.sh <seeded dir> <command...> : apply the seeded change to /repo, run the command, always undo it
 d=$(cd "$1" && pwd); shift
 [ -z "$(git -C /repo status --porcelain)" ] || { echo "refusing: /repo is not clean"; exit 2; }
+export VERIF_EVIDENCE_DIR=/tmp/verif_evidence_seeded
 git -C /repo apply "$d/patch.diff" || exit 2
 trap 'git -C /repo checkout -- .' EXIT
 "$@"
